@@ -4,6 +4,7 @@ import (
 	"log"
 	"maps"
 	"slices"
+	"sync"
 	"time"
 
 	"github.com/gopcua/opcua/id"
@@ -65,7 +66,11 @@ func DataValueFromValue(val any) *ua.DataValue {
 }
 
 type Node struct {
-	id   *ua.NodeID
+	id *ua.NodeID
+
+	// mu protects attr, refs and val. The application changes the
+	// nodes while the server reads them on behalf of its clients.
+	mu   sync.RWMutex
 	attr Attributes
 	refs References
 	val  ValueFunc
@@ -74,9 +79,44 @@ type Node struct {
 }
 
 func NewNode(id *ua.NodeID, attr Attributes, refs References, val ValueFunc) *Node {
-	n := &Node{id, attr, refs, val, nil}
+	n := &Node{id: id, attr: attr, refs: refs, val: val}
 	n.sanitize()
 	return n
+}
+
+// attribute returns the data value of an attribute or nil if there is none.
+func (n *Node) attribute(id ua.AttributeID) *ua.DataValue {
+	n.mu.RLock()
+	defer n.mu.RUnlock()
+	return n.attr[id]
+}
+
+func (n *Node) setAttribute(id ua.AttributeID, val *ua.DataValue) {
+	n.mu.Lock()
+	defer n.mu.Unlock()
+	if n.attr == nil {
+		n.attr = Attributes{}
+	}
+	n.attr[id] = val
+}
+
+// references returns a copy of the list of references.
+func (n *Node) references() References {
+	n.mu.RLock()
+	defer n.mu.RUnlock()
+	return slices.Clone(n.refs)
+}
+
+func (n *Node) addReference(ref *ua.ReferenceDescription) {
+	n.mu.Lock()
+	defer n.mu.Unlock()
+	n.refs = append(n.refs, ref)
+}
+
+func (n *Node) valueFunc() ValueFunc {
+	n.mu.RLock()
+	defer n.mu.RUnlock()
+	return n.val
 }
 
 func NewFolderNode(nodeID *ua.NodeID, name string) *Node {
@@ -175,27 +215,22 @@ func (n *Node) ID() *ua.NodeID {
 }
 
 func (n *Node) Value() *ua.DataValue {
-	if n.val == nil {
+	val := n.valueFunc()
+	if val == nil {
 		return nil
 	}
-	return n.val()
+	return val()
 }
 
 func (n *Node) Attribute(id ua.AttributeID) (*AttrValue, error) {
 	switch {
 	case id == ua.AttributeIDValue:
-		if n.val != nil {
-			val := n.val()
-			if val == nil {
-				return nil, ua.StatusBadAttributeIDInvalid
-			}
+		if val := n.Value(); val != nil {
 			return NewAttrValue(val), nil
 		}
 		return nil, ua.StatusBadAttributeIDInvalid
-	case n.attr == nil:
-		return nil, ua.StatusBadAttributeIDInvalid
 	default:
-		if v := n.attr[id]; v != nil {
+		if v := n.attribute(id); v != nil {
 			return NewAttrValue(v), nil
 		}
 		return nil, ua.StatusBadAttributeIDInvalid
@@ -209,11 +244,13 @@ func (n *Node) SetAttribute(id ua.AttributeID, val *ua.DataValue) error {
 
 		// TODO: probably need to do some type checking here.
 		// And some permissions tests
+		n.mu.Lock()
 		n.val = func() *ua.DataValue {
 			return val
 		}
+		n.mu.Unlock()
 	default:
-		n.attr[id] = val
+		n.setAttribute(id, val)
 	}
 
 	return nil
@@ -230,18 +267,18 @@ func attrValue(v *ua.DataValue) interface{} {
 }
 
 func (n *Node) BrowseName() *ua.QualifiedName {
-	if v, ok := attrValue(n.attr[ua.AttributeIDBrowseName]).(*ua.QualifiedName); ok && v != nil {
+	if v, ok := attrValue(n.attribute(ua.AttributeIDBrowseName)).(*ua.QualifiedName); ok && v != nil {
 		return v
 	}
 	return &ua.QualifiedName{}
 }
 
 func (n *Node) SetBrowseName(s string) {
-	n.attr[ua.AttributeIDBrowseName] = DataValueFromValue(&ua.QualifiedName{Name: s})
+	n.setAttribute(ua.AttributeIDBrowseName, DataValueFromValue(&ua.QualifiedName{Name: s}))
 }
 
 func (n *Node) DisplayName() *ua.LocalizedText {
-	val, ok := attrValue(n.attr[ua.AttributeIDDisplayName]).(*ua.LocalizedText)
+	val, ok := attrValue(n.attribute(ua.AttributeIDDisplayName)).(*ua.LocalizedText)
 	if !ok || val == nil {
 		return &ua.LocalizedText{}
 	}
@@ -252,18 +289,18 @@ func (n *Node) DisplayName() *ua.LocalizedText {
 func (n *Node) SetDisplayName(text, locale string) {
 	lt := &ua.LocalizedText{Text: text, Locale: locale}
 	lt.UpdateMask()
-	n.attr[ua.AttributeIDDisplayName] = DataValueFromValue(lt)
+	n.setAttribute(ua.AttributeIDDisplayName, DataValueFromValue(lt))
 }
 
 func (n *Node) Description() *ua.LocalizedText {
-	if v, ok := attrValue(n.attr[ua.AttributeIDDescription]).(*ua.LocalizedText); ok && v != nil {
+	if v, ok := attrValue(n.attribute(ua.AttributeIDDescription)).(*ua.LocalizedText); ok && v != nil {
 		return v
 	}
 	return &ua.LocalizedText{}
 }
 
 func (n *Node) SetDescription(text, locale string) {
-	n.attr[ua.AttributeIDDescription] = DataValueFromValue(&ua.LocalizedText{Text: text, Locale: locale})
+	n.setAttribute(ua.AttributeIDDescription, DataValueFromValue(&ua.LocalizedText{Text: text, Locale: locale}))
 }
 
 func (n *Node) DataType() *ua.ExpandedNodeID {
@@ -271,11 +308,10 @@ func (n *Node) DataType() *ua.ExpandedNodeID {
 		log.Printf("n was nil!")
 		return ua.NewTwoByteExpandedNodeID(0)
 	}
-	v, ok := attrValue(n.attr[ua.AttributeIDDataType]).(*ua.ExpandedNodeID)
+	v, ok := attrValue(n.attribute(ua.AttributeIDDataType)).(*ua.ExpandedNodeID)
 	if !ok || v == nil {
 		// if we have a type definition, return that?
-		for i := range n.refs {
-			r := n.refs[i]
+		for _, r := range n.references() {
 			if r.ReferenceTypeID == nil {
 				log.Printf("reftypeid was nil!")
 			}
@@ -289,11 +325,11 @@ func (n *Node) DataType() *ua.ExpandedNodeID {
 }
 
 func (n *Node) SetNodeClass(nc ua.NodeClass) {
-	n.attr[ua.AttributeIDNodeClass] = DataValueFromValue(uint32(nc))
+	n.setAttribute(ua.AttributeIDNodeClass, DataValueFromValue(uint32(nc)))
 }
 
 func (n *Node) NodeClass() ua.NodeClass {
-	v := attrValue(n.attr[ua.AttributeIDNodeClass])
+	v := attrValue(n.attribute(ua.AttributeIDNodeClass))
 	if v == nil {
 		return ua.NodeClassObject
 	}
@@ -310,31 +346,29 @@ func (n *Node) NodeClass() ua.NodeClass {
 }
 
 func (n *Node) AddObject(o *Node) *Node {
+	o.mu.RLock()
 	nn := &Node{
 		id:   o.id,
 		attr: maps.Clone(o.attr),
 		refs: slices.Clone(o.refs),
 	}
-	if n.attr == nil {
-		n.attr = Attributes{}
-	}
+	o.mu.RUnlock()
 	nn.SetNodeClass(ua.NodeClassObject)
-	n.refs = append(n.refs, refs.Organizes(nn.id, nn.BrowseName().Name, nn.DisplayName().Text, nn.DataType()))
+	n.addReference(refs.Organizes(nn.id, nn.BrowseName().Name, nn.DisplayName().Text, nn.DataType()))
 	return n.ns.AddNode(nn)
 }
 
 func (n *Node) AddVariable(o *Node) *Node {
+	o.mu.RLock()
 	nn := &Node{
 		id:   o.id,
 		attr: maps.Clone(o.attr),
 		refs: slices.Clone(o.refs),
 		val:  o.val,
 	}
-	if n.attr == nil {
-		n.attr = Attributes{}
-	}
+	o.mu.RUnlock()
 	nn.SetNodeClass(ua.NodeClassVariable)
-	n.refs = append(n.refs, refs.Organizes(nn.id, nn.BrowseName().Name, nn.DisplayName().Text, nn.DataType()))
+	n.addReference(refs.Organizes(nn.id, nn.BrowseName().Name, nn.DisplayName().Text, nn.DataType()))
 	return nn
 }
 
@@ -358,7 +392,7 @@ func (n *Node) AddRef(o *Node, rt RefType, forward bool) {
 		NodeClass:       o.NodeClass(),
 		TypeDefinition:  o.DataType(),
 	}
-	n.refs = append(n.refs, &ref)
+	n.addReference(&ref)
 }
 
 // Access returns true if the node has the access level requested.
@@ -368,7 +402,7 @@ func (n *Node) AddRef(o *Node, rt RefType, forward bool) {
 // I'm not sure what the best way to implement "user" specific access levels
 // is presently.  Will need functioning user authentication first, and then a way to
 // pass it into the nodes user access attribute so it can be checked properly.
-func (n Node) Access(flag ua.AccessLevelType) bool {
+func (n *Node) Access(flag ua.AccessLevelType) bool {
 
 	access, err := n.Attribute(ua.AttributeIDUserAccessLevel)
 	if err == nil { // if we have a user access level, we need to check it.
